@@ -548,7 +548,14 @@ def scenarios(rng, thorough):
 def pre(ck: Check):
     import translate
 
-    translate.run()  # Props/C18 ties the model's constants to the generated ones (cool-down, max tries, backoff literals)
+    translate.run()  # Props/C18 ties the model's constants to the generated ones (cool-down, max tries, backoff expression)
+    from aioesphomeapi import reconnect_logic
+    expr = translate.backoff_expr(reconnect_logic)
+    ck.coverage["backoff_expression_from_source"] = expr
+    if expr.startswith("unsupported:"):
+        ck.assumptions.append("the retry-delay expression could not be extracted from the source by symbolic evaluation (" + expr +
+                              "): the static tie c18_consts says nothing about it on this tree; the delays are tied by the correspondence "
+                              "only (armed delay after 1..12 consecutive failures and after authentication errors vs the model)")
 
 
 def run(ck: Check):
@@ -614,5 +621,6 @@ def run(ck: Check):
         "a user callback that awaits something awaits ONE future the scenario resolves (cb_done); per scenario each of the three "
         "callbacks either always suspends or never does",
         "the attempt's own timeouts (resolve/connect/handshake, C05-C09) never fire: attempt outcomes are chosen by the scenario",
-        "stop_callback() (a wrapper that spawns stop()) and zeroconf instances created by the manager itself (closed in stop(), C20) are not driven",
+        "zeroconf instances created by the manager itself (closed in stop(), C20) are not driven; stop_callback() is driven as a second "
+        "way of issuing stop()",
     ]
